@@ -191,6 +191,22 @@ def models_part(ctx, rng, months, uniform):
         ctx.count("uniform", vals.size)
         if not np.all(vals == vals[0]) or (want is not None and not (vals[0] == want or (math.isfinite(want) and abs(vals[0] - want) <= 1e-6 * abs(want)))):
             ctx.violation("uniform", f"cloud model {model!r} returns {np.unique(vals)[:4].tolist()} (expected one value{'' if want is None else ' = ' + repr(want)})", {"model": repr(model)})
+    # ---- the model *object* is what compute() hands to the optical stage as its cloud function: the
+    #      kernel with the object equals the kernel with a plain function returning the same top
+    if uniform:
+        kq = CphotAng(525.0)
+        evs = [(0.2, 2.0, 5.0), (0.05, 0.5, 50.0), (0.5, 6.0, 1.0)]
+        for model in (Simulation.NoCloud(), Simulation.MonoCloud(altitude=-math.inf), Simulation.MonoCloud(altitude=0.0), Simulation.MonoCloud(altitude=3.0), Simulation.MonoCloud(altitude=70.0), Simulation.MonoCloud(altitude=1e4), Simulation.MonoCloud(altitude=math.inf)):
+            c = NssConfig()
+            c.simulation.cloud_model = model
+            fobj = CloudTopHeight(c)
+            for (b_, a_, e_) in evs:
+                top = float(fobj(0.1, 0.2))
+                with_obj = tuple(float(x) for x in kq.run(b_, a_, e_, 0.1, 0.2, fobj))
+                with_fn = tuple(float(x) for x in kq.run(b_, a_, e_, 0.1, 0.2, lambda la, lo, t=top: t))
+                ctx.count("model-object")
+                if with_obj != with_fn:
+                    ctx.violation("above-penult" if top == math.inf else "between", f"cloud model {model!r} (top {top!r} km) handed to the kernel as an object gives {with_obj!r}; a plain function returning the same top gives {with_fn!r} (event beta={b_}, alt={a_}, E={e_})", {"model": repr(model), "event": [b_, a_, e_]})
     ddir = os.path.join(tables_ref.data_dir(), "cloud_maps")
     lat_nodes = np.linspace(-90, 90, 361)
     lonA = np.linspace(-180, 180, 576)  # the convention the code's axis uses
@@ -238,6 +254,26 @@ def models_part(ctx, rng, months, uniform):
                     first = (la, lo, v, [round(atm_ref.altitude(float(P[i, j])), 6) for i in ii for j in jj][:6])
         if first is not None:
             ctx.violation("map", f"pressure map month {mth}: at (lat {first[0]!r}, lon {first[1]!r}) rad the cloud top is {first[2]!r} km, which is not the standard-atmosphere altitude of any map node within one grid step (those give {first[3]}) ({bad_n} of {sel.size} locations)", {"month": mth, "lat": first[0], "lon": first[1]})
+        # ---- object history: a second cloud model for the same month in the same process, and the first
+        #      one again afterwards, give the same cloud tops (module-level caches of the map must not be
+        #      changed by building or using another object)
+        try:
+            f2 = CloudTopHeight(c)
+            idx_h = sel[:: max(1, sel.size // 300)][:300]
+            v2 = np.array([float(f2(float(lats[i]), float(lons[i]))) for i in idx_h])
+            v1 = np.array([float(f(float(lats[i]), float(lons[i]))) for i in idx_h])
+            f3 = CloudTopHeight(c)
+            v3 = np.array([float(f3(float(lats[i]), float(lons[i]))) for i in idx_h])
+            ref_h = vals[: sel.size][:: max(1, sel.size // 300)][:300]
+            ctx.count("map-history", 3 * idx_h.size)
+            for nm_, vv in (("a second object for the same month", v2), ("the first object after a second one was built and used", v1), ("a third object", v3)):
+                same_ = (vv == ref_h) | (np.isnan(vv) & np.isnan(ref_h))
+                if not np.all(same_):
+                    i = int(np.flatnonzero(~same_)[0])
+                    ctx.violation("map", f"pressure map month {mth}: {nm_} returns {vv[i]!r} km at (lat {float(lats[idx_h[i]])!r}, lon {float(lons[idx_h[i]])!r}) rad; the first object returned {ref_h[i]!r} km ({int((~same_).sum())} of {idx_h.size} locations)", {"month": mth, "object": nm_})
+                    break
+        except Exception as ex:
+            ctx.exception("map:raises", f"pressure map month {mth}: building / using a second cloud model raised", ex, {"month": mth})
         # longitude sensitivity at fixed latitude
         la0 = 0.3
         row = np.array([float(f(la0, lo)) for lo in np.linspace(-3.1, 3.1, 64)])
@@ -319,7 +355,7 @@ def run(ctx):
     payloads += [{"kind": "fullrun"}]
     core.run_shards(ctx, "nssmon.checks.c09", "shard", payloads, workers=16, timeout=ctx.pick(1200, 6000))
     ctx.exhaustive_subspaces.append("all 12 monthly cloud maps")
-    for m in ("below-first", "above-penult", "between", "between-piecewise", "site", "site-fullrun", "uniform", "map", "map-longitude"):
+    for m in ("below-first", "above-penult", "between", "between-piecewise", "site", "site-fullrun", "uniform", "map", "map-history", "map-longitude", "model-object"):
         ctx.require(m)
     return ctx.finish(
         rule="kernel: events over [0,42 deg] x [0,20 km] x [1e-3, 3e3] x 100 PeV, each with cloud tops {-inf, -1, first segment - 1e-3, one ulp below it; one ulp above the penultimate segment, between the last two, the last, +1 km, 1e6, +inf; midpoints of the first four and last four kept segment pairs, four exact segment altitudes, random in between}, for the production float32 kernel and the same kernel in double; maps: 12 months x random locations on the sphere (radians, lon in (-pi, pi]) incl. both poles and the +-180 deg seam plus 400 locations produced by the real geometry stage",
